@@ -337,30 +337,58 @@ func cornersOf(n *pb.Notification, st *cacheState) []string {
 	return out
 }
 
-// cacheClass names the input class of a crash in the cache ingest path.
+// classKinds lists, per named corner, the kinds of failure it can explain. A
+// crash is given a named class only if the message exercises the corner AND
+// the failure is of a kind the corner explains; everything else falls back to
+// the structural fingerprint.
+var classKinds = map[string][]string{
+	"empty-full-path":         {"index-out-of-range", "slice-bounds"},
+	"delete-empty-full-path":  {"index-out-of-range", "slice-bounds"},
+	"meta-alone":              {"index-out-of-range", "slice-bounds"},
+	"meta-leaf-without-value": {"nil-dereference"},
+	"double-then-valueless":   {"nil-dereference"},
+	"delete-on-empty-target":  {"type-assertion", "nil-dereference"},
+}
+
+// cacheClass names the input class of a crash in the cache ingest path: the
+// first corner, in the order the parts of the message are processed, that
+// explains the kind of failure.
 func cacheClass(pi *panicInfo, n *pb.Notification, st *cacheState) string {
-	prio := []string{"delete-on-empty-target", "empty-full-path", "delete-empty-full-path", "meta-alone", "meta-leaf-without-value", "double-then-valueless"}
-	have := map[string]bool{}
 	for _, c := range cornersOf(n, st) {
-		have[c] = true
-	}
-	// The failure kind decides among several corners present in one message.
-	byKind := map[string][]string{
-		"index-out-of-range": {"empty-full-path", "delete-empty-full-path", "meta-alone"},
-		"type-assertion":     {"delete-on-empty-target"},
-		"nil-dereference":    {"meta-leaf-without-value", "double-then-valueless", "delete-on-empty-target"},
-	}
-	for _, c := range byKind[pi.Kind] {
-		if have[c] {
-			return c
-		}
-	}
-	for _, c := range prio {
-		if have[c] {
-			return c
+		for _, k := range classKinds[c] {
+			if k == pi.Kind {
+				return c
+			}
 		}
 	}
 	return fallbackClass(pi.Kind, n)
+}
+
+// singleParts splits a multi-part notification into one notification per
+// update and per delete, in the order the cache processes them.
+func singleParts(n *pb.Notification) []*pb.Notification {
+	if n.GetAtomic() || len(n.GetUpdate())+len(n.GetDelete()) <= 1 {
+		return nil
+	}
+	var out []*pb.Notification
+	base := func() *pb.Notification {
+		c := &pb.Notification{Timestamp: n.GetTimestamp()}
+		if n.GetPrefix() != nil {
+			c.Prefix = proto.Clone(n.GetPrefix()).(*pb.Path)
+		}
+		return c
+	}
+	for _, u := range n.GetUpdate() {
+		c := base()
+		c.Update = []*pb.Update{proto.Clone(u).(*pb.Update)}
+		out = append(out, c)
+	}
+	for _, d := range n.GetDelete() {
+		c := base()
+		c.Delete = []*pb.Path{proto.Clone(d).(*pb.Path)}
+		out = append(out, c)
+	}
+	return out
 }
 
 // fullClientPath is the path a client notification carries for an update or
